@@ -48,6 +48,12 @@ theorem filter_eq_of_zip_map {α : Type} (l : List α) (m : α → Bool) :
   | cons x xs ih =>
     cases h : m x <;> simp [List.filter, h, ih]
 
+/-- `np.sum` as the code's left fold -/
+theorem foldl_add_eq_sum (l : List Int) (a : Int) : l.foldl (· + ·) a = a + l.sum := by
+  induction l generalizing a with
+  | nil => simp
+  | cons x xs ih => simp [List.foldl, ih]; omega
+
 /-! ### `extremum` -/
 
 theorem extremum_eq_none {hi : Bool} {l : List Int} : extremum hi l = none ↔ l = [] := by
